@@ -851,7 +851,7 @@ def edit_stream(ctx, pool, n):
     return fails
 
 
-RESIZE_OPS = ["add_row", "delete_row", "add_column", "delete_column"]
+RESIZE_OPS = ["add_row", "delete_row", "add_column", "delete_column", "header_rows", "header_cols"]
 
 
 def do_resize(tb, op, at):
@@ -861,6 +861,10 @@ def do_resize(tb, op, at):
         tb.delete_row(start_row=at)
     elif op == "add_column":
         tb.add_column(start_col=at)
+    elif op == "header_rows":      # one more / one fewer header row: the labels come from another row
+        tb.num_header_rows = 2 if tb.num_header_rows <= 1 else tb.num_header_rows - 1
+    elif op == "header_cols":
+        tb.num_header_cols = 2 if tb.num_header_cols <= 1 else tb.num_header_cols - 1
     else:
         tb.delete_column(start_col=at)
 
@@ -888,7 +892,7 @@ def resize_stream(ctx, pool, n):
     fails = []
     for k in range(n):
         cfg = gen_cfg(rng, (1,) if k % 2 else (2,), "unique", "unique")
-        op = RESIZE_OPS[k % 4]
+        op = RESIZE_OPS[k % len(RESIZE_OPS)]
         at = rng.randrange(2, NROWS)
         items = [x[:3] for x in gen_items(rng, 40, True) if x[3][0] in ("rows", "cols", "row1", "col1")]
         for it, (s_, f_) in zip(items, resize_probe(pool, cfg, op, at, items)):
